@@ -42,3 +42,22 @@ M("C01", "none-slot-falls-through", CPU, "            if opcode_byte is None:\n 
 M("C01", "emitter-default-index", NODES, "opcode_emitter = opcode_emitter[self.index]", "opcode_emitter = opcode_emitter.get(self.index, next(iter(opcode_emitter.values())))", "C01.R6")
 M("C01", "reorder-entries-neutral", CPU, '    "nop": {AddressingMode.none: OpcodeWithoutOperand(0xEA)},\n    "rep": {AddressingMode.immediate: Opcode([0xC2])},\n',
   '    "rep": {AddressingMode.immediate: Opcode([0xC2])},\n    "nop": {AddressingMode.none: OpcodeWithoutOperand(0xEA)},\n', neutral=True)
+
+# ------------------------------------------------------------------ C02
+PROG = "a816/program.py"
+M("C02", "wordnode-advance-3", NODES, "class WordNode(NodeProtocol):\n    def __init__(self, value_node: ValueNodeProtocol) -> None:\n        self.value_node = value_node\n\n    def emit(self, current_address: Address) -> bytes:\n        return struct.pack(\"<H\", self.value_node.get_value() & 0xFFFF)\n\n    def pc_after(self, current_pc: Address) -> Address:\n        return current_pc + 2",
+  "class WordNode(NodeProtocol):\n    def __init__(self, value_node: ValueNodeProtocol) -> None:\n        self.value_node = value_node\n\n    def emit(self, current_address: Address) -> bytes:\n        return struct.pack(\"<H\", self.value_node.get_value() & 0xFFFF)\n\n    def pc_after(self, current_pc: Address) -> Address:\n        return current_pc + 3", "C02.R1")
+M("C02", "pointer-emits-4", NODES, "    def emit(self, current_addr: Address) -> bytes:\n        value = self.value_node.get_value()\n        return struct.pack(\"<HB\", value & 0xFFFF, (value >> 16) & 0xFF)",
+  "    def emit(self, current_addr: Address) -> bytes:\n        value = self.value_node.get_value()\n        return struct.pack(\"<HH\", value & 0xFFFF, (value >> 16) & 0xFF)", "C02.R1")
+M("C02", "text-advance-by-text-len", NODES, "return current_pc + len(self.binary_text)", "return current_pc + len(self.text)", "C02.R1")
+M("C02", "supposed-length-1-plus", CPU, "return 2 + self.size_opcode_map[value_size]", "return 1 + self.size_opcode_map[value_size]", "C02.R2")
+M("C02", "relative-length-3", CPU, "    def supposed_length(self, value_node: \"ValueNodeProtocol | None\", size: ValueSize | None = None) -> int:\n        return 2\n",
+  "    def supposed_length(self, value_node: \"ValueNodeProtocol | None\", size: ValueSize | None = None) -> int:\n        return 3\n", "C02.R2")
+M("C02", "label-pass-skips-wordnode", PROG, "            if isinstance(node, SymbolNode):\n                continue", "            if isinstance(node, SymbolNode) or isinstance(node, CodePositionNode):\n                continue", "C02.R3")
+M("C02", "drop-reloc-advance", PROG, "                self.resolver.reloc_address += len(node_bytes)\n", "", "C02.R3")
+M("C02", "drop-reset-between", PROG, "            previous_pc = node.pc_after(previous_pc)\n\n        self.resolver_reset()\n\n        previous_pc", "            previous_pc = node.pc_after(previous_pc)\n\n        previous_pc", "C02.R3")
+M("C02", "revert-length-guard", NODES, "            node_bytes = opcode_emitter.emit(self.value_node, self.resolver, self.size)\n            self._check_length(len(node_bytes))\n            return node_bytes",
+  "            node_bytes = opcode_emitter.emit(self.value_node, self.resolver, self.size)\n            return node_bytes", "C02.R4")
+M("C02", "guard-never-raises", NODES, "if self.predicted_length is not None and self.predicted_length != length:\n            raise NodeError(", "if self.predicted_length is not None and self.predicted_length != length:\n            logger.warning(", "C02.R4")
+M("C02", "rename-local-neutral", NODES, "        length = opcode_emitter.supposed_length(self.value_node, self.size)\n        self._check_length(length)\n        self.predicted_length = length\n        return current_pc + length",
+  "        n_bytes = opcode_emitter.supposed_length(self.value_node, self.size)\n        self._check_length(n_bytes)\n        self.predicted_length = n_bytes\n        return current_pc + n_bytes", neutral=True)
